@@ -207,10 +207,14 @@ func addrToSx20(a *tlb.MsgAddress) sx.V {
 	return sx.L(sx.A("harness-error"), sx.A("sumtype"))
 }
 
+// errBadBoc20 is raised (and turned into the outcome 'err) when the bytes the
+// serialiser produced for a generated cell do not parse back to one root
+type errBadBoc20 struct{}
+
 func cellFromSx20(v sx.V) boc.Cell {
 	cells, err := boc.DeserializeBoc(v.Bytes)
 	if err != nil || len(cells) != 1 {
-		panic("c20: generator produced a bad BOC")
+		panic(errBadBoc20{})
 	}
 	return *cells[0]
 }
@@ -295,6 +299,10 @@ func watchdog20(f func() sx.V) sx.V {
 	go func() {
 		defer func() {
 			if r := recover(); r != nil {
+				if _, ok := r.(errBadBoc20); ok {
+					ch <- sx.A("err")
+					return
+				}
 				ch <- sx.A("panic")
 			}
 		}()
@@ -307,6 +315,13 @@ func watchdog20(f func() sx.V) sx.V {
 		c20Hangs++
 		return sx.A("timeout")
 	}
+}
+
+func watchdogFor20(limit time.Duration, f func() sx.V) sx.V {
+	old := c20Timeout
+	c20Timeout = limit
+	defer func() { c20Timeout = old }()
+	return watchdog20(f)
 }
 
 func execC20Print(in sx.V) sx.V { return watchdog20(func() sx.V { return execC20Print0(in) }) }
@@ -911,6 +926,8 @@ func genC20(c *Ctx) {
 			case20{fam: "cell", arg: sx.Nat(n % 2), val: sx.Bytes(b), class: "cell|writer"}.runCell(c, 1, cell)
 		}
 	}
+	genC20CellSizes(c, nMut)
+	genC20BocDocs(c)
 	case20{fam: "cell", arg: sx.Nat(0), class: "cell"}.hand(c, append([]string{"\"b5ee9c72\"", "\"b5ee9c7201\"", "\"b5ee9c72010101010002000000\"", "\"B5EE9C72010101010002000000\"", "\"b5ee9c7201010101000200000\"", "\"b5ee9c720101010100020000000\"", "\"b5ee9c72010102010002000000\"", "b5ee9c72010101010002000000"}, commonDocs20...)...)
 
 	// ---- Maybe[T] over several inner families
@@ -964,6 +981,21 @@ func (k case20) runCell(c *Ctx, nMut int, root *boc.Cell) {
 		return
 	}
 	in := k.in(k.val)
+	// the property on the implementation alone: the JSON of the cell as built parses back
+	own := watchdog20(func() sx.V {
+		b, err := json.Marshal(*root)
+		if err != nil {
+			return sx.A("err")
+		}
+		var again boc.Cell
+		if err := json.Unmarshal(b, &again); err != nil {
+			return sx.L(sx.A("rejected"), sx.Str(err.Error()))
+		}
+		return sx.Bytes(b)
+	})
+	if !hang20(c, "c20.print", in, "cell", own) && own.K != sx.KBytes {
+		c.Fail("c20.print", in, "roundtrip-cell", "json.Marshal of the cell does not parse back: "+own.String())
+	}
 	out := c.Emit("c20.print", in, k.class+"|print")
 	if hang20(c, "c20.print", in, "cell", out) {
 		return
@@ -1095,4 +1127,219 @@ func genC20Scanner(c *Ctx) {
 	for _, d := range []string{strings.Repeat("[", 10001), strings.Repeat("[", 10000) + strings.Repeat("]", 10000), strings.Repeat("[", 10001) + strings.Repeat("]", 10001), strings.Repeat("[", 9999) + "1" + strings.Repeat("]", 9999), strings.Repeat("{\"a\":", 10000) + "1" + strings.Repeat("}", 10000), strings.Repeat("{\"a\":", 10001) + "1" + strings.Repeat("}", 10001)} {
 		c.Emit("c20.valid", sx.Bytes([]byte(d)), "scanner|depth")
 	}
+}
+
+// ---- cells at the sizes where the BOC header changes width, and hand-built
+// BOC documents from the header grammar through every cell-bearing JSON target
+
+// distinctDag20: n pairwise different cells (each starts with its index), all
+// reachable from cell 0, extra references for sharing
+func distinctDag20(r *prng.R, n int) []Node {
+	dag := make([]Node, n)
+	for i := 0; i < n; i++ {
+		var sb strings.Builder
+		for b := 23; b >= 0; b-- {
+			sb.WriteByte('0' + byte((i>>uint(b))&1))
+		}
+		nd := Node{Bits: sb.String() + randBits(r, r.Intn(24))}
+		if n > 1000 {
+			// shallow 4-ary heap: the library limits the depth of a tree
+			for ch := 4*i + 1; ch <= 4*i+4 && ch < n; ch++ {
+				nd.Refs = append(nd.Refs, ch)
+			}
+		} else if i < n-1 {
+			nd.Refs = append(nd.Refs, i+1)
+			for k := r.Intn(4); k > 0; k-- {
+				nd.Refs = append(nd.Refs, i+1+r.Intn(n-1-i))
+			}
+		}
+		dag[i] = nd
+	}
+	return dag
+}
+
+func dagBoc20(dag []Node) []byte {
+	cells, err := buildGo(dag)
+	if err != nil {
+		panic("c20: buildGo failed")
+	}
+	b, err := cells[0].ToBoc()
+	if err != nil {
+		panic("c20: ToBoc failed")
+	}
+	return b
+}
+
+func genC20CellSizes(c *Ctx, nMut int) {
+	r := c.R
+	sizes := []int{1, 2, 254, 255, 256, 257, 258}
+	if c.Thorough() {
+		sizes = append(sizes, 300, 511, 512, 513)
+	}
+	for rep := 0; rep < c.Scale(1, 3); rep++ {
+		for _, n := range sizes {
+			dag := distinctDag20(r, n)
+			cells, err := buildGo(dag)
+			if err != nil {
+				continue
+			}
+			b, err := cells[0].ToBoc()
+			if err != nil {
+				c.Fail("c20.print", sx.Nat(n), "marshal-error-cell", "ToBoc failed on a generated tree: "+err.Error())
+				continue
+			}
+			case20{fam: "cell", arg: sx.Nat((n + rep) % 2), val: sx.Bytes(b), class: distinctCls20(n)}.runCell(c, 1, cells[0])
+		}
+	}
+	// 65535 / 65536 / 65537 distinct cells (the next header width): implementation
+	// side only, the extracted model is too slow on documents of this size
+	if c.Thorough() {
+		for _, n := range []int{65535, 65536, 65537} {
+			dag := distinctDag20(r, n)
+			cells, err := buildGo(dag)
+			if err != nil {
+				continue
+			}
+			root := cells[0]
+			res := watchdogFor20(60*time.Second, func() sx.V {
+				b, err := json.Marshal(*root)
+				if err != nil {
+					return sx.A("err")
+				}
+				var again boc.Cell
+				if err := json.Unmarshal(b, &again); err != nil {
+					return sx.L(sx.A("rejected"), sx.Str(err.Error()))
+				}
+				h1, _ := root.HashString()
+				h2, _ := again.HashString()
+				if h1 != h2 {
+					return sx.A("hash")
+				}
+				return sx.A("ok")
+			})
+			if !res.IsA("ok") {
+				c.Fail("c20.print", sx.L(sx.A("distinct-cells"), sx.Nat(n)), "roundtrip-cell", fmt.Sprintf("a tree of %d distinct cells does not survive the JSON round trip: %s", n, res))
+			}
+		}
+	}
+}
+
+type cellHolder20 struct {
+	C boc.Cell
+	A tlb.Any
+	M tlb.Maybe[tlb.Any]
+	P *boc.Cell
+}
+
+// fieldOutcome20: json.Unmarshal of {"<field>": doc} into a struct with cell fields
+func fieldOutcome20(field string, doc []byte) sx.V {
+	return watchdog20(func() sx.V {
+		var h cellHolder20
+		if err := json.Unmarshal([]byte("{\""+field+"\":"+string(doc)+"}"), &h); err != nil {
+			return sx.A("err")
+		}
+		return sx.A("ok")
+	})
+}
+
+func init() {
+	// replay entry (oracle only): (field-name-bytes doc) -> 'ok | 'err | 'panic | 'timeout
+	execs["c20.field"] = func(in sx.V) sx.V { return fieldOutcome20(string(in.List[0].Bytes), in.List[1].Bytes) }
+}
+
+// bocDoc20 sends one hex BOC document through every JSON target that holds a cell
+func bocDoc20(c *Ctx, bocBytes []byte, class string) {
+	doc := []byte("\"" + hex.EncodeToString(bocBytes) + "\"")
+	var direct sx.V
+	for arg := 0; arg < 2; arg++ { // boc.Cell, tlb.Any
+		k := case20{fam: "cell", arg: sx.Nat(arg), class: class}
+		for _, kind := range []string{"c20.parse", "c20.method"} {
+			pin := k.in(sx.Bytes(doc))
+			res := c.Emit(kind, pin, class)
+			hang20(c, kind, pin, "cell", res)
+			if res.IsA("panic") {
+				c.Fail(kind, pin, "panic-cell", "UnmarshalJSON panicked on a well-formed hex BOC document")
+			}
+			if arg == 0 && kind == "c20.parse" {
+				direct = res
+			}
+		}
+	}
+	km := case20{fam: "maybe", arg: sx.L(sx.A("cell"), sx.Nat(1)), class: class}
+	for _, kind := range []string{"c20.parse", "c20.method"} {
+		pin := km.in(sx.Bytes(doc))
+		res := c.Emit(kind, pin, class)
+		hang20(c, kind, pin, "maybe", res)
+		if res.IsA("panic") {
+			c.Fail(kind, pin, "panic-maybe", "Maybe[Any].UnmarshalJSON panicked on a well-formed hex BOC document")
+		}
+	}
+	// struct fields: same outcome class as the direct target, never a panic
+	want := "ok"
+	if direct.IsA("err") {
+		want = "err"
+	}
+	for _, field := range []string{"C", "A", "M", "P"} {
+		res := fieldOutcome20(field, doc)
+		in := sx.L(sx.Str(field), sx.Bytes(doc))
+		if hang20(c, "c20.field", in, "cell", res) {
+			continue
+		}
+		if res.IsA("panic") {
+			c.Fail("c20.field", in, "panic-cell", "json.Unmarshal into a struct with a cell field panicked")
+		} else if !direct.IsA("panic") && !direct.IsA("timeout") && !res.IsA(want) {
+			c.Fail("c20.field", in, "field-differs-cell", fmt.Sprintf("field %s: %s, direct target: %s", field, res, want))
+		}
+	}
+}
+
+func genC20BocDocs(c *Ctx) {
+	r := c.R
+	// documents named in the format description: no cells / one cell, no roots
+	for _, h := range []string{"b5ee9c72010100000000", "b5ee9c720101010000020000", "b5ee9c7201010101000200010000", "b5ee9c72010101020002000000000000", "68ff65f3010100000000", "acc3a72801010000000000000000"} {
+		b, _ := hex.DecodeString(h)
+		bocDoc20(c, b, "cell|bocdoc|named")
+	}
+	variants := []HeaderVariant{{}, {Idx: true}, {Crc: true}, {Idx: true, Crc: true}, {Idx: true, Cache: true}, {Magic: 1}, {Magic: 2}, {SizeExtra: 1}, {OffExtra: 1}, {SizeExtra: 1, OffExtra: 2, Crc: true}, {WithHashes: true}}
+	sizes := []int{0, 1, 2, 3, 255, 256, 257}
+	for _, n := range sizes {
+		dag := distinctDag20(r, n)
+		rootSets := [][]int{{}, {0}, {0, 0}, {n}, {0, n}}
+		if n > 1 {
+			rootSets = append(rootSets, []int{0, n - 1}, []int{n - 1}, []int{n - 1, 0, 1})
+		}
+		for ri, roots := range rootSets {
+			ok := true
+			for _, rt := range roots {
+				if n == 0 && rt == 0 && len(roots) > 0 {
+					ok = true // root index 0 with no cells: out of range, still a document
+				}
+				_ = rt
+			}
+			if !ok {
+				continue
+			}
+			for vi, hv := range variants {
+				// the big documents only with a few header variants in the quick tier
+				if n >= 255 && !c.Thorough() && vi%4 != ri%4 {
+					continue
+				}
+				cls := fmt.Sprintf("cell|bocdoc|roots%d", minInt(len(roots), 2))
+				if n >= 255 {
+					cls += "|big"
+				}
+				bocDoc20(c, refSerialize(dag, roots, hv, r), cls)
+			}
+		}
+	}
+}
+
+func distinctCls20(n int) string {
+	switch {
+	case n < 254:
+		return "cell|distinct|small"
+	case n <= 258:
+		return "cell|distinct|254-258"
+	}
+	return "cell|distinct|large"
 }
